@@ -22,15 +22,15 @@ def init_stores(ctx, cls):
     init = model.own_method(cls, "__init__")
     Sm = SM.Summarizer(model, cls)
     ps = [p for p in Sm.run(init) if not p.raises]
-    if len(ps) != 1:
-        raise AnalysisError("%s.__init__ has %d non-raising paths" % (cls, len(ps)))
-    return init, ps[0].stores, Sm.T
+    if not ps:
+        raise AnalysisError("%s.__init__ has no normal exit" % cls)
+    return init, ps[0].stores, Sm.T, ps
 
 
 def check_form(ctx, cls="GPO"):
     model = ctx.model
     c = model.cls(cls)
-    init, st, T = init_stores(ctx, cls)
+    init, st, T, all_paths = init_stores(ctx, cls)
     q = "%s.__init__" % cls
     ctx.fn(q)
     rhomax, numax, n = P("rhomax"), P("numax"), P("rounds")
@@ -39,15 +39,22 @@ def check_form(ctx, cls="GPO"):
     if cls == "GPO":
         N = sp.ceiling(sp.Rational(1, 2) * Dmax * sp.log((n / 2) / sp.log(n / 2)))
         want.update({"N": N, "half_phase_length": sp.floor(n / (2 * N)), "phase": sp.Integer(1), "counter": sp.Integer(0)})
-    for a, ref in want.items():
-        got = st.get(a)
-        if got is None:
-            ctx.violation("R09-FORM" if cls == "GPO" else "R10-FORM", c.file, q, "self.%s" % a, "not assigned by the constructor", init.lineno)
-            continue
-        eq, wit = SX.equivalent(got, ref)
-        ctx.ob("R09-FORM" if cls == "GPO" else "R10-FORM", eq is True, c.file, q, "self.%s" % a,
-               "== %s" % ref if eq is True else "is %s, published value is %s%s" % (got, ref, " (differ at %s)" % wit if wit else ""), init.lineno)
-    return st
+    for pth in all_paths:
+        st = pth.stores
+        for a, ref in want.items():
+            got = st.get(a)
+            if got is None:
+                ctx.violation("R09-FORM" if cls == "GPO" else "R10-FORM", c.file, q, "self.%s" % a, "not assigned by the constructor", init.lineno)
+                continue
+            eq, wit = SX.equivalent(got, ref)
+            ctx.ob("R09-FORM" if cls == "GPO" else "R10-FORM", eq is True, c.file, q, "self.%s" % a,
+                   "== %s" % ref if eq is True else "is %s, published value is %s%s" % (got, ref, " (differ at %s)" % wit if wit else ""), init.lineno)
+    # the constructor builds no learner: learners are started by pull, one per phase (R09-CREATE / R10-APPEND)
+    init_ctor = [x for x in ast.walk(init) if isinstance(x, ast.Call) and norm_src(x.func) == "self.algo"]
+    ctx.ob("R09-FORM" if cls == "GPO" else "R10-FORM", not init_ctor, c.file, q, "no learner is built by the constructor",
+           "none" if not init_ctor else "the constructor builds a learner (%s): the published schedule starts learner i in the first round of phase i"
+           % norm_src(init_ctor[0])[:60], init.lineno, nontrivial=False)
+    return all_paths[0].stores
 
 
 FAMILIES = ("T_HOO", "HCT", "VHCT")
@@ -108,7 +115,9 @@ def check_learner_construction(ctx, cls, rule):
     def ctor_writes(p):
         return [w for w in p.writes if w[0] == "self.curr_algo" and w[2] and w[2].startswith("self.algo(")]
     if not any(ctor_writes(p) for p in paths):
-        raise AnalysisError("%s.pull never constructs a learner (anchor vanished)" % cls)
+        ctx.violation(rule, c.file, q, "learner construction", "obligation not discharged: no path of pull builds a learner (self.curr_algo = "
+                      "self.algo(..)); where and with which (nu, rho) the learner of a phase is started cannot be established", pull.lineno)
+        return []
 
     def consistent(p, fam):
         for csrc, pol in p.conds:
